@@ -21,8 +21,8 @@ TA, TB = "_a._tcp.local.", "_b._tcp.local."
 S1 = Svc(TA, "s1._a._tcp.local.", "h1.local.", 80, b"\x03a=b", [bytes([10, 0, 0, 1])], [])
 S2 = Svc(TA, "s2._a._tcp.local.", "h1.local.", 81, b"", [bytes([10, 0, 0, 1])], [])
 Z = "z._b._tcp.local."
-SCENARIOS = ["busy", "busy-managed-browser", "early"]
-SPAN_MS = {"busy": 16_000, "busy-managed-browser": 16_000, "early": 1200}
+SCENARIOS = ["busy", "busy-managed-browser", "early", "withdrawing"]
+SPAN_MS = {"busy": 16_000, "busy-managed-browser": 16_000, "early": 1200, "withdrawing": 16_000}
 
 
 class Log:
@@ -96,6 +96,15 @@ def build(w: World, scenario: str, log: Log) -> Tuple[Any, float]:
         at(4000, inject, wire.response([("PTR", TB, 1, 0, Z)]))
         at(6000, inject, wire.response([("PTR", TB, 1, 1, Z)]))  # floored TTL: refresh timers far in the future
         at(7000, inject, wire.query([("Q", S1.name, 33, 1)], id_=4))
+    if scenario == "withdrawing":
+        # the application withdraws its services the usual way - `await azc.async_unregister_service(info)`, which returns a
+        # task for the goodbyes that few callers wait for - shortly before it closes the instance
+        async def unreg(name: str) -> None:
+            await azc.async_unregister_service(infos[name])
+            log.note(f"unregister {name} returned")
+
+        at(9000, lambda: w.spawn(unreg("S2")))
+        at(9060, lambda: w.spawn(unreg("S1")))
     return host, t0
 
 
@@ -233,7 +242,11 @@ def points(tier: str) -> List[Dict[str, Any]]:
                     if i + d >= 0:
                         offs.add(i + d)
             # every 25 ms while registrations (probes, announcements) are in flight
-            for ms in list(range(100, 1300, step)) + (list(range(2500, 3700, step)) if scenario != "early" else []):
+            if scenario == "withdrawing":
+                # (what precedes the withdrawal is the 'busy' scenario's business)
+                offs = {o for o in offs if o >= 8_990_000} | {ms * 1000 for ms in range(8990, 9400, 10)}
+            for ms in [] if scenario == "withdrawing" else \
+                    list(range(100, 1300, step)) + (list(range(2500, 3700, step)) if scenario != "early" else []):
                 offs.add(ms * 1000)
             for off in sorted(offs):
                 for mode in ("async_close", "sync_close", "sync_close_foreign_loop"):
